@@ -8,7 +8,7 @@ from __future__ import absolute_import
 
 import locale
 import time
-#import calendar
+import calendar
 from datetime import datetime
 from typing import Any, Optional, Union
 
@@ -58,11 +58,11 @@ class Date(with_metaclass(HTTPSemantic)):
 			self.__timestamp = float(timeval)
 		elif isinstance(timeval, (tuple, time.struct_time)):
 			# self.__timestamp = calendar.timegm(timeval)
-			self.__timestamp = time.mktime(timeval) - time.timezone
+			self.__timestamp = calendar.timegm(timeval)
 		elif isinstance(timeval, datetime):
 			self.__datetime = timeval
 			# self.__timestamp = calendar.timegm(self.datetime.utctimetuple())
-			self.__timestamp = time.mktime(self.datetime.utctimetuple()) - time.timezone
+			self.__timestamp = calendar.timegm(self.datetime.utctimetuple())
 		elif isinstance(timeval, (bytes, Unicode)):
 			if isinstance(timeval, Unicode):
 				timeval = timeval.encode('ascii', 'ignore')
